@@ -91,7 +91,7 @@ func c10Leaves(front string) []c10leaf {
 }
 
 func C10_Jobs() []string {
-	return []string{"paths/map", "paths/validate", "paths/json", "missing/map", "missing/json", "flat/json", "flat/zhttp-json", "cross-front-end", "issuepath-stale", "issuepath", "sanitize", "first-and-unique/map", "first-and-unique/validate", "root-key"}
+	return []string{"paths/map", "paths/validate", "paths/json", "missing/map", "missing/json", "flat/json", "flat/zhttp-json", "cross-front-end", "issuepath-stale", "long-slice-paths", "sanitize-root-first", "issuepath", "sanitize", "first-and-unique/map", "first-and-unique/validate", "root-key"}
 }
 func C10_Covers() []string { return []string{"some-issues"} }
 
@@ -336,6 +336,47 @@ func C10_Run(job string) {
 			c10WellFormed(errs)
 			v.Assert(len(errs["c"]) == 1 && len(errs["alias"]) == 0, "C10:issuepath-moved-an-unrelated-issue")
 		}
+		v.Cover("some-issues")
+	case "long-slice-paths":
+		// positions above 9 are written in decimal
+		n := 13 + 10*v.Choice("longer", 2)
+		bad := v.Choice("bad", n)
+		in := make([]any, n)
+		for i := range in {
+			in[i] = 500
+		}
+		in[bad] = 5
+		var d struct{ L []int }
+		errs := z.Struct(z.Schema{"l": z.Slice(z.Int().GT(100))}).Parse(map[string]any{"l": in}, &d)
+		c10WellFormed(errs)
+		want := fmt.Sprintf("l[%d]", bad)
+		v.Assert(len(errs) == 2 && len(errs[want]) == 1 && errs[want][0].Path == want, "C10:issue-not-at-documented-path")
+		var top []int
+		errs = z.Slice(z.Int().GT(100)).Parse(in, &top)
+		want = fmt.Sprintf("[%d]", bad)
+		v.Assert(len(errs) == 2 && len(errs[want]) == 1, "C10:issue-not-at-documented-path")
+		errs = z.Slice(z.Int().GT(100)).Validate(&top)
+		v.Assert(len(errs) == 2 && len(errs[want]) == 1, "C10:issue-not-at-documented-path")
+		v.Cover("some-issues")
+	case "sanitize-root-first":
+		// SanitizeMap keeps every key, also when the first issue is recorded at the root
+		k := v.Choice("kind", 3)
+		var errs z.ZogIssueMap
+		var d struct{ A int }
+		var sl []int
+		switch k {
+		case 0:
+			errs = z.Struct(z.Schema{"a": z.Int()}).TestFunc(func(p any, c z.Ctx) bool { return false }, z.IssueCode("st")).Parse(map[string]any{"a": 1}, &d)
+		case 1:
+			errs = z.Slice(z.Int()).Min(3).Parse([]any{1}, &sl)
+		case 2:
+			errs = z.Struct(z.Schema{"a": z.Int()}).Parse(zjson.Decode(strings.NewReader("[")), &d)
+		}
+		c10WellFormed(errs)
+		san := z.Issues.SanitizeMap(errs)
+		v.Assert(len(san) == len(errs) && len(san["$first"]) == 1 && len(san["$root"]) == 1 && san["$first"][0] == errs["$first"][0].Message, "C10:sanitize-keys")
+		san2 := z.Issues.SanitizeMapAndCollect(errs)
+		v.Assert(len(san2) == len(san) && len(san2["$first"]) == 1, "C10:sanitize-keys")
 		v.Cover("some-issues")
 	case "issuepath":
 		x := v.Int("x")
